@@ -279,6 +279,10 @@ def opts_to_argv(opts):
         argv.append('-' + 'v' * opts['verbose'])
     if opts.get('processes'):
         argv += ['-j', str(opts['processes'])]
+    if opts.get('color'):
+        argv.append('--color')
+    if opts.get('progress'):
+        argv.append('--progress')
     return argv
 
 
